@@ -1541,8 +1541,8 @@ CLAUSES = [
                       'lay_SF': 0.02, 'lay_X': 0.015, 'error_nonC': 0.03,
                       # classes carried over from the other properties (half of the smallest share seen at seeds 1, 2)
                       'caller_in': 0.08, 'caller_out': 0.19, 'decades': 0.075, 'decades_unit': 0.039, 'dt': 0.15, 'dt_float': 0.08, 'dt_int': 0.065,
-                      'dt_limit': 0.034, 'dt_f4': 0.05, 'dt_f2': 0.012, 'dt_bigendian': 0.05, 'dt_unit': 0.06, 'dt_nounit': 0.085, 'readonly': 0.14,
-                      'row_alone': 0.27, 'form_tuple': 0.05},
+                      'dt_limit': 0.03, 'dt_f4': 0.04, 'dt_f2': 0.012, 'dt_bigendian': 0.035, 'dt_unit': 0.06, 'dt_nounit': 0.085, 'readonly': 0.14,
+                      'row_alone': 0.27, 'form_tuple': 0.044},
            desc='uc.model -> (dict | JSON | XML) -> uc.value_unit / error_unit: shape, dtype kind, physical value; write and read '
                 'under different working units; value and error arrays in C / transposed / Fortran / axis-swapped / strided layouts'),
     Clause('box', oracle_box, g.box_cases, quick=3500, thorough=50000,
